@@ -266,7 +266,12 @@ def gen_variants(rng, tier):
             w2 = Writer(False)
             w2.node(Node(W("Second"), FIXED, False, []))
             extra = ([0] if len(w.out) % 2 else []) + w2.out
-        cases.append(query_ops(rng, None, hexb(w.out + extra), None, every=False))
+            if rng.random() < 0.5:  # and a third one
+                w3 = Writer(True)
+                w3.node(Node(W("Third"), [], False, [Node(K_VFI, [], True, [Node(K_TR, [1, 2], False)])]))
+                extra += ([0] if len(extra) % 2 else []) + w3.out
+        hx = hexb(w.out + extra)
+        cases.append(query_ops(rng, None, hx, None, every=False) + ["ver %s events_skip %d" % (hx, k) for k in (1, 2, 3)])
     return cases
 
 
